@@ -621,6 +621,38 @@ theorem blocked_inj {N i i' j j' : Nat} (hi : i < N) (hi' : i' < N) (h : i + j *
   have hN : 0 < N := by omega
   exact ⟨Nat.eq_of_mul_eq_mul_right hN (by omega), rfl⟩
 
+/-! ### `_drop_nans` -/
+
+theorem map_getD_range {γ : Type} (l : List γ) (d : γ) :
+    (List.range l.length).map (fun k => l.getD k d) = l := by
+  apply List.ext_getElem (by simp)
+  intro k h1 h2
+  simp [List.getD_eq_getElem?_getD, List.getElem?_eq_getElem h2]
+
+/-- `_drop_nans` keeps exactly the positions whose value is not NaN, in order, and keeps index
+and value of a position together. -/
+theorem dropNans_spec {β : Type} (idx : List Nat) (vals : List (Option β)) (h : idx.length = vals.length) :
+    ∃ ks : List Nat, ks.Sublist (List.range vals.length) ∧
+      (∀ k, k ∈ ks ↔ k < vals.length ∧ (vals.getD k none).isSome) ∧
+      (dropNans idx vals).1 = ks.map (fun k => idx.getD k 0) ∧
+      (dropNans idx vals).2 = ks.map (fun k => vals.getD k none) := by
+  unfold dropNans
+  by_cases hn : vals.any Option.isNone = true
+  · simp only [hn, if_true]
+    refine ⟨_, List.filter_sublist, fun k => ?_, rfl, rfl⟩
+    simp [List.mem_filter]
+  · simp only [hn, Bool.false_eq_true, if_false]
+    refine ⟨List.range vals.length, List.Sublist.refl _, fun k => ?_, ?_, ?_⟩
+    · simp only [List.mem_range, iff_self_and]
+      intro hk
+      have hall : none ∉ vals := by simpa [List.any_eq_true] using hn
+      rw [List.getD_eq_getElem _ _ hk]
+      cases hv : vals[k] with
+      | none => exact absurd (hv ▸ List.getElem_mem hk) hall
+      | some _ => rfl
+    · rw [← h]; exact (map_getD_range idx 0).symm
+    · exact (map_getD_range vals none).symm
+
 /-! ### `compute_initial_condition_01` -/
 
 section field
